@@ -81,11 +81,22 @@ def d_of(shape):
     return " ".join(parts)
 
 
+_UNIT = [1000]
+
+
 def mil(v):
-    return int(round(float(v) * 1000))
+    return int(round(float(v) * _UNIT[0]))
 
 
-def rel_form(shape):
+def rel_form(shape, unit=1000):
+    _UNIT[0] = unit
+    try:
+        return _rel_form(shape)
+    finally:
+        _UNIT[0] = 1000
+
+
+def _rel_form(shape):
     """first move + segments as vectors from each segment's start (what the relative commands hold)"""
     segs = []
     first = shape[0][0]
@@ -119,10 +130,20 @@ def job(j):
     from picosvg.svg_reuse import affine_between
     from picosvg.svg_types import SVGPath
     s1, s2, tol, expect, label = j
-    rec = {"k": "ok", "t": "", "s1": rel_form(s1), "s2": rel_form(s2), "tol": mil(tol), "A": [], "expect": expect}
+    fine = label.startswith("fine:")
+    rec = {"k": "ok", "t": "", "s1": rel_form(s1), "s2": rel_form(s2), "tol": mil(tol), "A": [], "expect": expect,
+           "fine": 0, "E": []}
+    if fine:
+        # large coordinates / small tolerance: coordinates x 10^4, linear part x 10^8, translation x 10^4
+        rec.update({"fine": 1, "s1": rel_form(s1, 10000), "s2": rel_form(s2, 10000), "tol": int(round(tol * 10000))})
     try:
         A = affine_between(SVGPath(d=d_of(s1)), SVGPath(d=d_of(s2)), tol)
-        if A is not None:
+        if A is not None and fine:
+            rec["A"] = [int(round(v * 10 ** 8)) for v in A[:4]]
+            rec["E"] = [int(round(A[4] * 10 ** 4)), int(round(A[5] * 10 ** 4))]
+            if any(abs(v) > 2 ** 31 - 2 for v in rec["A"] + rec["E"]):
+                rec["k"], rec["t"], rec["A"], rec["E"] = "exc", "matrix-out-of-range", [], []
+        elif A is not None:
             vals = [v * 10000 for v in A]
             if any(abs(v) > 4e8 for v in vals):
                 rec["k"], rec["t"] = "exc", "matrix-out-of-range"
@@ -179,6 +200,25 @@ def jobs_for(tier, rng):
             if a != b:
                 for tol in tols:
                     jobs.append((SHAPES[a], SHAPES[b], tol, "any", "%s vs %s" % (a, b)))
+    # the fine regime: coordinates up to ~1000, tolerance 0.001, transforms with irrational entries (no
+    # short decimal rounding of the matrix is exact, so the library's own verification of its roundings
+    # is what keeps the result sound)
+    import math
+    fine_tfs = {}
+    for deg in (30, 17, 101):
+        c, sn = math.cos(math.radians(deg)), math.sin(math.radians(deg))
+        fine_tfs["rot%d" % deg] = (c, sn, -sn, c, 3.0, -2.0)
+    fine_tfs["scale-sqrt2"] = (math.sqrt(2), 0, 0, math.sqrt(2), 1.0, 1.0)
+    fine_tfs["mirror-scale"] = (-math.sqrt(3) / 2, 0.5 * 1.1, 0.5, math.sqrt(3) / 2 * 1.1, 7.0, 0.0)
+    fine_tfs["translate"] = (1, 0, 0, 1, 12.5, -7.25)
+    for n in names:
+        if n == "pill":
+            continue
+        for k in (20, 100):
+            s = apply((k, 0, 0, k, 0, 0), SHAPES[n])
+            for tn, A in fine_tfs.items():
+                jobs.append((s, apply(A, s), 0.001, "found" if tn == "translate" else "any",
+                             "fine:%sx%d->%s" % (n, k, tn)))
     return jobs
 
 
@@ -202,7 +242,9 @@ def run(out, tier):
         cov["rule"] = ("pairs (s, T(s)) for %d shapes (polygons, curves, holes, open) x %d exact rational transforms "
                        "(translations, quarter and 3-4-5 rotations, uniform / non-uniform scalings, mirrorings, "
                        "shear, general) x tolerances 0.01/0.1/1, near misses with one coordinate off by 0.5, 1.5 and "
-                       "3 tolerances, all ordered pairs of unrelated shapes, identical pairs; non-trivial = a "
+                       "3 tolerances, all ordered pairs of unrelated shapes, identical pairs; a fine regime (coordinates up to "
+                       "1000, tolerance 0.001, rotations by 30/17/101 degrees, scale sqrt 2, mirror with scale) judged "
+                       "with exact double-width products; non-trivial = a "
                        "transform was reported and TLC checked MapsOnto" % (len(SHAPES), len(TRANSFORMS)))
         for j, v in zip(jobs, verdicts):
             if v == "ok:sound" and "rot345" in j[4] and len(cov["samples"]) < 2:
